@@ -441,6 +441,8 @@ def generate(run_seed, mode='seq', ntasks=None):
     knobs = _knobs(rng, mode)
     if mode == 'seq':
         nt = 1
+    elif mode == 'thr16':
+        nt = 16
     else:
         nt = ntasks or rng.choice([2, 2, 2, 3, 3, 4, 4, 6, 8, 16])
     one_step_task = rng.randrange(nt) if rng.random() < 0.2 else -1
@@ -676,6 +678,8 @@ def judge(plan, result, refs):
             nontrivial_run = True
         ref_r = refs.get(replay_plan)
         stats['replay_refs'] += 1
+        if stats['compared'] == 1:
+            stats['refsample'] = [replay_plan]
         kind = None
         ref = None
         if ob['rec'] != ref_r:
@@ -763,6 +767,8 @@ def assert_pristine():
 
 
 def phases(tier):
+    if tier == 'thorough':
+        return [('seq', 0.4), ('thr', 0.45), ('thr16', 0.15)]
     return [('seq', 0.5), ('thr', 0.5)]
 
 
